@@ -24,7 +24,9 @@ vs positional arguments and reordered independent statements do not matter.
   C02.BOOK   the remainder handed to the top-up is request - ledger; the ledger starts at zero and per path
              of the reservation loops changes by what the cells receive; deficit covering runs while a
              deficit remains, moves reserve from the donor's entry to the deficit, takes at most what the
-             donor holds and gives up only when nothing is left to take.
+             donor holds and gives up only when nothing is left to take (the covering may live in a private
+             helper the reserve table is handed to: followed by that argument, a `return` of the helper ends
+             the covering of the deficit at hand and returns what is left of it).
   C02.RES    per allocating path of the reservation loop: one ledger (starting at zero) grows by
              max(share, min_power); share = (request - ledger) * q with the element's own ratio in q; the
              reserve stored is cap - min_power, or share - min_power under min_power <= share <= cap; a share
